@@ -330,7 +330,7 @@ def run(rep, tier, seed):
     rep.cov["rule"] = ("random sessions of 1-12 lines from 11 line kinds (unparsable, compiler-rejected with and without redefinition of an "
                        "existing name, compiler-rejected after definitions in a nested block / if / loop / function body / anonymous "
                        "function, failing at run time after a side effect, reads from nested scopes, let / redefinition, function definition, assignment, "
-                       "loop, observation), with blank and continued lines; distinct = distinct session texts; non-trivial = more "
+                       "loop, observation, bare values incl. falsey ones, same-body functions of different arity and calls of them), with blank and continued lines; every accepted line's output compared with the same line at the end of a script; distinct = distinct session texts; non-trivial = more "
                        "than one line after the OBS declaration")
     rep.cov["exhaustive"] = False
     rep.sample({"session": sessions[0]["text"], "observed": [(l["class"], l["obs"].get("v") and len(l["obs"]["v"])) for l in sessions[0]["obs_lines"]]})
